@@ -58,12 +58,27 @@ def main():
             pr.Print(f)
         return out.getvalue()
 
-    def compile_one(src, opts):
+    # compiler objects constructed up front (still unused = fresh when their turn comes)
+    pre = []
+    with contextlib.redirect_stdout(buf), contextlib.redirect_stderr(buf):
+        for _ in range(plan.get("precreate", 0)):
+            pre.append(Compiler.Compiler())
+    # option dictionaries owned by the host and passed again and again (never copied)
+    optobjs = [dict(x) for x in plan.get("optobjs", [])]
+
+    def compile_one(src, opts, use_pre=False):
         b = io.StringIO()
         r = None
+        if "$obj" in opts:
+            o = optobjs[opts["$obj"]]
+            o.update(opts.get("$set", {}))
+            opts = o
+        else:
+            opts = dict(opts)
         with contextlib.redirect_stdout(b), contextlib.redirect_stderr(b):
             try:
-                r = Compiler.Compiler().Compile(src, dict(opts))
+                comp = pre.pop(0) if (use_pre and pre) else Compiler.Compiler()
+                r = comp.Compile(src, opts)
             except SystemExit:
                 return {"o": "EXIT"}, None
             except Exception as e:
@@ -96,11 +111,15 @@ def main():
     build_libs(plan.get("libs", []))
     for src, opts in plan["history"]:
         if src is None:
-            # the imported libraries are rebuilt (another version) in the middle of the history
+            if "chdir" in opts:
+                # the process changes its working directory (its own module store there)
+                os.makedirs(opts["chdir"], exist_ok=True)
+                os.chdir(opts["chdir"])
+            # the imported libraries are (re)built in the current directory
             build_libs(plan["lib_versions"][str(opts["relib"])])
             result["obs"].append({"o": "relib"})
             continue
-        ob, _r = compile_one(src, opts)
+        ob, _r = compile_one(src, opts, use_pre=True)
         result["obs"].append(ob)
     _finish(plan, result, refused)
 
